@@ -97,6 +97,32 @@ func TestVerifOutputBuffers(t *testing.T) {
 						break
 					}
 				}
+				// ALTERED ciphertexts (implicit rejection, low-order / zeroed
+				// component shares): what DecapsulateTo writes is the same for
+				// every previous content of the buffer, and is what the scheme
+				// API returns (a path that returns early leaves stale octets)
+				for ai, alt := range alteredForBuffers(ct0) {
+					want, werr := s.Decapsulate(sk, lib.Clone(alt))
+					if werr != nil {
+						continue
+					}
+					for fi, f := range fills {
+						sec := f(len(ss0))
+						if fi == 0 {
+							copy(sec, ss0) // the secret of the previous, honest, call
+						}
+						if pn := lib.Try("DecapsulateTo(altered):"+name, alt, func() {
+							m.Call([]reflect.Value{reflect.ValueOf(sec), reflect.ValueOf(lib.Clone(alt))})
+						}); pn != nil {
+							continue
+						}
+						lib.Count("outbuf:DecapsulateTo-altered-ciphertext")
+						if !lib.Eq(sec, want) {
+							viol("DecapsulateTo", "altered ciphertext: the secret written depends on what the buffer held (or differs from Scheme.Decapsulate)", "alteration", ai, "previous_buffer_content", fi, "ct", alt, "equals_previous_honest_secret", lib.Eq(sec, ss0))
+							break
+						}
+					}
+				}
 				// in place: the secret is written over a part of the ciphertext buffer
 				for _, off := range []int{0, len(ct0) - len(ss0), (len(ct0) - len(ss0)) / 2} {
 					if off < 0 {
@@ -199,4 +225,29 @@ func reloadKeyObject(obj any, enc []byte) bool {
 		return true
 	}
 	return false
+}
+
+// alteredForBuffers: ciphertexts derived from an honest one by zeroing or
+// replacing whole component shares at either end (32 / 56 octets: the sizes of
+// X25519 / X448 shares in the hybrids), the all-zero string and one bit flip.
+func alteredForBuffers(ct []byte) [][]byte {
+	var out [][]byte
+	add := func(f func(b []byte)) {
+		b := lib.Clone(ct)
+		f(b)
+		out = append(out, b)
+	}
+	for _, n := range []int{32, 56} {
+		if len(ct) <= n {
+			continue
+		}
+		n := n
+		add(func(b []byte) { copy(b[len(b)-n:], make([]byte, n)) })
+		add(func(b []byte) { copy(b[:n], make([]byte, n)) })
+		add(func(b []byte) { copy(b[len(b)-n:], make([]byte, n)); b[len(b)-n] = 1 })
+		add(func(b []byte) { copy(b[:n], make([]byte, n)); b[0] = 1 })
+	}
+	add(func(b []byte) { copy(b, make([]byte, len(b))) })
+	add(func(b []byte) { b[len(b)/2] ^= 0x10 })
+	return out
 }
